@@ -176,7 +176,7 @@ def run(ctx):
         "judge": {"module": "FindJudge", "relation": "Conforms_C17", "not_run_after_hangs": notrun},
         "selftest_corrupted_record_rejected": st,
         "exhaustive": tier == "quick",
-    }, assumptions=["no entry named spokfile exists above the sandbox directory (checked by the driver)", "a call that does not return within 1.5 s is a hang"])
+    }, assumptions=["no entry named spokfile exists above the sandbox directory (checked by the driver)", "a call that does not return within 5 s is a hang"])
 
 
 def replay(ctx, path):
